@@ -36,7 +36,15 @@ Units(num, den) == (num \div den) * S + ((num % den) * S) \div den
 
 \* documented options carried by an event:  ep/eq = the lower bound epsilon (0/1 = the solver's default: 0 for hals,
 \* 1e-8 for fista);  nzr = hals_nnls(nonzero_rows=True) "the lines of the V matrix can't be zero"
+\* call environment (memory layout of the array arguments, caller-side error / warning settings) and the return value
+\* of the hals callback ("the algorithm will also terminate if the callback callable returns True" -- and only then)
+LayoutSet == {"C", "F", "strided", "readonly"}
+ErrSet == {"default", "ignore", "raise", "warnerr"}
+CbSet == {"none", "tuple", "float", "false", "true3"}
 OptionsOK(e) ==
+    /\ e.layout \in LayoutSet /\ e.err \in ErrSet
+    /\ e.cb \in CbSet /\ (e.cb # "none" => e.solver = "hals")
+    /\ e.mutG \in BOOLEAN /\ e.mutB \in BOOLEAN /\ e.mutS \in BOOLEAN
     /\ e.nzr \in BOOLEAN /\ (e.nzr => e.solver = "hals")
     /\ <<e.ep, e.eq>> \in {<<0, 1>>} \cup EpsSet
     /\ (e.ep > 0 => e.solver \in {"hals", "fista"})
@@ -71,11 +79,15 @@ ExactClose(e) ==
 ExactVerdict(e) ==
     IF ~ExactInDomain(e) THEN "InDomain"
     ELSE IF e.raised THEN "Raised"
+    \* UtU and UtM (and the start, except hals' documented-mutable V) are bit-identical after the call
+    ELSE IF e.mutG \/ e.mutB \/ (e.solver # "hals" /\ e.mutS) THEN "InputUntouched"
     ELSE IF e.size # Len(e.B) * Len(e.G) \/ ~IsCols(e.x, Len(e.B), Len(e.G)) \/ ~IsCols(e.xf, Len(e.B), Len(e.G)) THEN "Shape"
     ELSE IF ~AllFin(e.x) \/ ~AllFin(e.xf) THEN "Finite"
     \* e.nlow = number of returned entries below the bound (0, or epsilon when given), counted on the floats
     ELSE IF Constrained(e) /\ e.nlow # 0 THEN (IF e.ep > 0 THEN "Floor" ELSE "NonNeg")
-    ELSE IF ~ExactClose(e) THEN "Close"
+    \* callback returned True at sweep 3: the result is the iterate after exactly three sweeps (logged by a run with n_iter_max=3)
+    ELSE IF e.cb = "true3" /\ (e.x # e.xref \/ e.xf # e.xreff) THEN "CallbackStop"
+    ELSE IF e.cb # "true3" /\ ~ExactClose(e) THEN "Close"
     \* nonzero_rows=True: no row of the returned V is entirely zero (unless the whole solution is zero)
     ELSE IF e.nzr /\ e.zero_rows # 0 /\ (\E j \in 1..Len(e.B) : \E i \in 1..Len(e.G) : e.x[j][i] > SolTol + 1) THEN "NonzeroRows"
     ELSE "ok"
@@ -94,6 +106,8 @@ KktInDomain(e) ==
 
 KktVerdictT(e, ZT, KT) ==
     IF e.raised THEN "Raised"
+    ELSE IF e.mutG \/ e.mutB \/ (e.solver # "hals" /\ e.mutS) THEN "InputUntouched"
+    ELSE IF e.cb = "true3" THEN (IF e.x = e.xref /\ e.xf = e.xreff THEN "ok" ELSE "CallbackStop")
     ELSE IF e.size # e.k * e.n \/ ~IsCols(e.x, e.k, e.n) \/ ~IsCols(e.g, e.k, e.n) THEN "Shape"
     ELSE IF ~AllFin(e.x) \/ ~AllFin(e.g) THEN "Finite"
     ELSE IF Constrained(e) /\ e.nlow # 0 THEN "NonNeg"
